@@ -21,6 +21,10 @@ thr   deterministic threshold test of single transitions under a scripted random
 chain offline checker over a recorded real run (warm-up with tuning + sampling, or sample_adapt):
       every transition's decision is recomputed from the recorded state, proposal, uniform draw and
       the scale in force at that step (documented proposal), including the steps during adaptation.
+out   'start outside the support': the chain sits at a state whose log-density is -inf or NaN (explicit or default
+      initial point outside a bounded support / inside a NaN region); scripted proposals to further inadmissible points
+      must never be accepted whatever u and whatever the current density; moves to admissible points may be accepted
+      and must then leave state and carried density consistent.
 stat  stationarity (second line): K independent chains started from exact draws of targets with a
       known law, k in {1,3} transitions, normal-score battery (KS, mean, second and cross moments),
       two-stage rule (p < 1e-7, then 4x sample, same statistic, same direction).
@@ -48,12 +52,16 @@ REQUIRED_COUNTERS = {
               "threshold_reject_side": 2000, "reject_state_unchanged_checked": 1700, "accept_cache_checked": 3500,
               "nan_inf_never_accepted_checked": 400, "reverse_direction_checked": 1600, "reload_equivalence_checked": 240,
               "chain_transitions_checked": 10000, "stationarity_tests": 12,
-              "target_args_unchanged_checked": 50000, "forward_input_checked": 5000, "library_target_vs_reference_checked": 400},
-    "thorough": {"proposal_maps_identified": 18000, "documented_proposal_checked": 8000, "threshold_accept_side": 30000,
-                 "threshold_reject_side": 14000, "reject_state_unchanged_checked": 12000, "accept_cache_checked": 25000,
-                 "nan_inf_never_accepted_checked": 2500, "reverse_direction_checked": 11000, "reload_equivalence_checked": 1600,
-                 "chain_transitions_checked": 130000, "stationarity_tests": 40,
-                 "target_args_unchanged_checked": 500000, "forward_input_checked": 40000, "library_target_vs_reference_checked": 3000}}
+              "target_args_unchanged_checked": 50000, "forward_input_checked": 5000, "library_target_vs_reference_checked": 400,
+              "outside_start_bad_proposals_checked": 600, "outside_start_inward_proposals_checked": 200},
+    # thorough floors are ~30 % of a complete run, so that a heavily shared machine (cases cut by the wall-clock budget)
+    # still gives a verdict
+    "thorough": {"proposal_maps_identified": 10000, "documented_proposal_checked": 4500, "threshold_accept_side": 15000,
+                 "threshold_reject_side": 7500, "reject_state_unchanged_checked": 6500, "accept_cache_checked": 13000,
+                 "nan_inf_never_accepted_checked": 3000, "reverse_direction_checked": 6000, "reload_equivalence_checked": 900,
+                 "chain_transitions_checked": 36000, "stationarity_tests": 30,
+                 "target_args_unchanged_checked": 250000, "forward_input_checked": 30000, "library_target_vs_reference_checked": 1700,
+                 "outside_start_bad_proposals_checked": 2400, "outside_start_inward_proposals_checked": 800}}
 BUDGET_S = {"quick": 240.0, "thorough": 2400.0}
 
 LEGACY_NAME = {"MH": "MH", "CWMH": "CWMH", "PCN": "pCN", "MALA": "MALA", "ULA": "ULA"}
@@ -83,7 +91,7 @@ TS = min(1.0, float(os.environ.get("VERIF_C02_TOLSCALE", "1")))    # development
 # =========================================================================== case generation
 
 def _thr_cases(tier, seed):
-    n_main, n_ula = (400, 50) if tier == "quick" else (2500, 400)
+    n_main, n_ula = (400, 50) if tier == "quick" else (1500, 250)
     out = []
     for name in ("MH", "CWMH", "PCN", "MALA", "ULA"):
         for iface in ("exp", "legacy"):
@@ -129,7 +137,7 @@ def _thr_cases(tier, seed):
 
 
 def _chain_cases(tier, seed):
-    n = 24 if tier == "quick" else 200
+    n = 24 if tier == "quick" else 120
     out = []
     for name in ("MH", "CWMH", "PCN", "MALA"):
         for iface in ("exp", "legacy"):
@@ -169,7 +177,7 @@ STAT_TARGETS = {"MH": ["s_gauss1", "s_banana", "s_logistic1", "s_trunc1", "s_gau
 
 def _stat_cases(tier, seed):
     out = []
-    K = 6000 if tier == "quick" else 40000
+    K = 6000 if tier == "quick" else 30000
     n = 0
     for name in ("MH", "CWMH", "PCN", "MALA"):
         for iface in ("exp", "legacy"):
@@ -185,8 +193,38 @@ def _stat_cases(tier, seed):
     return out
 
 
+OUT_TARGETS = {"MH": ["box", "box_ones_out", "nanhalf", "uni_post", "uni_post_ones_out"],
+               "CWMH": ["box", "box_ones_out", "uni_post_ones_out", "nanhalf", "uni_post"],
+               "MALA": ["box", "box_ones_out", "nanhalf"],
+               "PCN": ["post_user_neginf", "post_user_nan"]}
+
+
+def _out_cases(tier, seed):
+    """'start outside the support': the chain sits at a point whose target log-density is -inf or NaN (explicit
+    initial point outside a bounded support / inside a NaN region, or the default initial point ones(dim) outside)."""
+    n = 30 if tier == "quick" else 150
+    out = []
+    for name in ("MH", "CWMH", "PCN", "MALA"):
+        for iface in ("exp", "legacy"):
+            rng = core.rng_for(seed, PROPERTY, "out", name, iface, tier)
+            tl = OUT_TARGETS[name]
+            routes = ["step", "sample"] if iface == "exp" else ["single_update", "sample2"]
+            for i in range(n):
+                tgt = tl[i % len(tl)]
+                d = max(rng.choice([1, 2, 3, 4]), 2 if name == "CWMH" else 1)
+                c = {"kind": "out", "sampler": name, "iface": iface, "target": tgt, "d": d,
+                     "start": "default" if tgt.endswith("ones_out") and rng.random() < 0.6 else "explicit",
+                     "scale": rng.choice(["one", "mid", "mid", "small"] + (["vec"] if name == "CWMH" else [])),
+                     "route": routes[(i // len(tl)) % 2], "i": i}
+                if tgt.startswith("post"):
+                    c["pmean"] = ["nonzero", "zero"][i % 2]
+                    c["pcov"] = rng.choice(["scalar", "vector", "matrix"])
+                out.append(c)
+    return out
+
+
 def cases(tier, seed):
-    rest = _chain_cases(tier, seed) + _thr_cases(tier, seed)
+    rest = _chain_cases(tier, seed) + _thr_cases(tier, seed) + _out_cases(tier, seed)
     core.rng_for(seed, PROPERTY, "order", tier).shuffle(rest)     # a wall-clock cut must not fall on one sampler
     out = _stat_cases(tier, seed) + rest                          # the expensive stat cases first, spread over all shards
     flt = os.environ.get("VERIF_C02_FILTER")       # development only, e.g. "MALA:exp" (a filtered run cannot reach the coverage floors)
@@ -197,7 +235,7 @@ def cases(tier, seed):
 
 
 def _cfg(case, **extra):
-    keys = ("kind", "sampler", "iface", "target", "hist", "route", "pmean", "pcov", "grad_bad", "proposal", "mode",
+    keys = ("kind", "sampler", "iface", "target", "hist", "route", "pmean", "pcov", "grad_bad", "proposal", "mode", "start",
             "geom", "pname", "pgeom", "gform")
     c = {k: case[k] for k in keys if k in case}
     c.update(extra)
@@ -266,6 +304,11 @@ class Env:
         elif tgt in R.TARGETS:
             kw = {"grad_bad": case.get("grad_bad", "finite")} if tgt in ("box", "nanhalf") else {}
             self.ref = R.TARGETS[tgt](rs, d, **kw)
+        elif tgt == "box_ones_out":
+            self.ref = R.Box(rs, d, grad_bad=case.get("grad_bad", "finite"), ones_inside=False)
+        elif tgt in ("uni_post", "uni_post_ones_out"):
+            prior = R.UniformPrior(rs, d, ones_inside=(tgt == "uni_post"))
+            self.ref = R.PostRef(prior, R.LinLik(rs, d, prior))
         elif tgt == "lib_gauss":
             self.ref = R.LibGauss(rs, d, case.get("gform", "cov"))
         elif tgt.startswith("lib_") and tgt != "lib_post_mat":
@@ -306,7 +349,9 @@ class Env:
                 pkw["name"] = "x"
             if geom is not None and case.get("pgeom") == "same":
                 pkw["geometry"] = geom
-            if pcov == "normal":
+            if isinstance(prior, R.UniformPrior):
+                self.cprior = cuqi.distribution.Uniform(prior.lo.copy(), prior.hi.copy(), **pkw)     # real library prior, -inf outside
+            elif pcov == "normal":
                 self.cprior = cuqi.distribution.Normal(prior.m.copy(), np.sqrt(np.diag(prior.C)), **pkw)
             else:
                 self.cprior = cuqi.distribution.Gaussian(prior.m.copy(), copy.deepcopy(prior.cov_arg), **pkw)
@@ -1196,6 +1241,192 @@ class Thr:
                 ctx.count("reverse_direction_checked")
 
 
+# =========================================================================== start outside the support
+
+class Out(Thr):
+    """The chain currently sits at a point whose target log-density is -inf or NaN.  Under the scripted stream
+    proposals are steered to further points without a valid log-density and to admissible points.
+    Oracle: a move to a point whose log-density is -inf or NaN is never accepted, whatever the density of the current
+    state and whatever the uniform draw; a move to an admissible point may be accepted - then the new state is the
+    evaluated proposal and the carried density is its density, otherwise nothing changes."""
+
+    def cur_kind(self, x):
+        v = self.env.ref_cached(self.name, x)
+        return "nan" if np.isnan(v) else ("neginf" if v == -np.inf else "finite")
+
+    def inside_point(self):
+        ref, rs = self.ref, self.rs
+        for _ in range(50):
+            x = ref.typical(rs)
+            if not ref.in_bad(x) and np.isfinite(self.env.ref_cached(self.name, x)):
+                return x
+        return x
+
+    def outside_point(self):
+        y = self.ref.bad_point(self.rs, self.inside_point())[0]
+        if self.rs.uniform() < 0.4 and self.d > 1 and hasattr(self.ref, "lo"):      # outside in a second coordinate
+            y = self.ref.bad_point(self.rs, y)[0]
+        return y
+
+    def build_out(self):
+        case, D, rs, env, ctx = self.case, self.D, self.rs, self.env, self.ctx
+        if not env.sanity(ctx, rs, self.name):
+            return False
+        scale = env.scale_value(rs, self.name, case["scale"])
+        default = case["start"] == "default"
+        x0 = None if default else self.outside_point()
+        np.random.seed(int(rs.randint(2 ** 31 - 1)))
+        s = D.make(x0, scale)
+        if self.iface == "exp":
+            s.initialize()
+            self.x = _arr(s.current_point)
+        else:
+            self.x = np.ones(self.d) if default else x0
+        self.s = s
+        env.rec.clear()
+        self.scale = D.scale_of(s)
+        kind = self.cur_kind(self.x)
+        if kind == "finite" or not (self.ref.in_bad(self.x) or kind != "finite"):
+            ctx.inconclusive("start point is not outside the support"); return False
+        ctx.note("start_kind", kind)
+        if self.iface == "exp":
+            key = "current_likelihood_logd" if self.name == "PCN" else "current_target_logd"
+            v = float(np.asarray(getattr(s, key), float).ravel()[0])
+            ctx.count("outside_start_cached_density_checked")
+            if np.isfinite(v):
+                self.viol("cache_vs_reference", f"sampler initialised at {self.x} (reference log-density {kind}) carries {key}={v}")
+        return True
+
+    def run(self):
+        ctx = self.ctx
+        if not self.build_out():
+            return
+        x, kind0 = self.x, self.cur_kind(self.x)
+        self.cfg = {**self.cfg, "from": kind0}
+        if self.name == "CWMH":
+            return self.run_cwmh_out()
+        idx = self.identify(x, full=True)
+        if idx is None or not np.all(np.isfinite(idx[0])) or not np.all(np.isfinite(idx[1])):
+            ctx.inconclusive("proposal map not identified from the outside state"); return
+        ax, Bx = idx
+        if np.linalg.cond(Bx) > 1e10:
+            ctx.inconclusive("singular proposal factor"); return
+        route = self.case["route"]
+        plans = ["out", "in", "out", "out", "in", "out"]
+        n_bad = n_in = 0
+        for k, plan in enumerate(plans):
+            yt = self.outside_point() if plan == "out" else self.inside_point()
+            if plan == "out" and self.rs.uniform() < 0.3:
+                yt = x + 0.3 * self.rs.standard_normal(self.d) * (np.arange(self.d) != 0 if self.ref.has_bad == "nan" else 1.0)
+            z = np.linalg.solve(Bx, yt - ax)
+            if not np.all(np.isfinite(z)) or np.max(np.abs(z)) > 1e8:
+                continue
+            u = [TINY_U, 0.5, ONE_U][k % 3] if plan == "out" else TINY_U
+            o = self.trans(x, z, [u], route)
+            if o.refused is not None:
+                ctx.refused("nan_potential", o.refused); continue
+            y = self.D.xstar(o)
+            if y is None:
+                continue
+            ybad = self.ref.in_bad(y) or not np.isfinite(self.env.ref_cached(self.name, y))
+            what = f"from {kind0} state, plan {plan}, u={u}"
+            if ybad:
+                n_bad += 1
+                ctx.count("outside_start_bad_proposals_checked")
+                ctx.count("nan_inf_never_accepted_checked")
+                self.judge(o, x, False, -np.inf, what)
+            else:
+                n_in += 1
+                moved = not _same_bits(o.x_next, o.x_prev)
+                ctx.count("outside_start_inward_proposals_checked")
+                if moved:
+                    ctx.count("outside_start_inward_moves_accepted")
+                self.judge(o, x, moved, 0.0, what)
+        if n_bad and n_in:
+            ctx.nontrivial("out:" + kind0)
+        elif n_bad:
+            ctx.nontrivial()
+
+    def coord_values(self, j):
+        """(an admissible value, a value outside the support or None) for coordinate j."""
+        ref, rs = self.ref, self.rs
+        inside = self.inside_point()[j]
+        if hasattr(ref, "lo"):
+            out = ref.hi[j] + rs.uniform(0.05, 1.0) if rs.uniform() < 0.5 else ref.lo[j] - rs.uniform(0.05, 1.0)
+        elif ref.has_bad == "nan" and j == 0:
+            out = ref.c + rs.uniform(0.05, 1.5)
+        else:
+            out = None
+        return inside, out
+
+    def run_cwmh_out(self):
+        ctx, D, d, rs, ref = self.ctx, self.D, self.d, self.rs, self.ref
+        x, kind0 = self.x, self.cur_kind(self.x)
+        idx = self.identify(x, full=True)
+        if idx is None or not np.all(np.isfinite(idx[0])) or np.any(np.diag(idx[1]) == 0):
+            ctx.inconclusive("proposal map not identified from the outside state"); return
+        ax, Bx = idx
+        route = self.case["route"]
+        n_bad_from_bad = n_in = 0
+        for k in range(6):
+            xall = np.empty(d)
+            for j in range(d):
+                vin, vout = self.coord_values(j)
+                r = rs.uniform()
+                xall[j] = vout if (vout is not None and r < 0.45) else (x[j] + 0.2 * rs.standard_normal() if r < 0.6 else vin)
+            z = (xall - ax) / np.diag(Bx)
+            us = [float(rs.choice([TINY_U, 0.5, ONE_U])) for _ in range(d)]
+            o = self.trans(x, z, us, route)
+            pts = self.cw_points(o)
+            if pts is None:
+                ctx.inconclusive("CWMH trace too short"); continue
+            what = f"sweep{k} from {kind0} state"
+            xt = x.copy()
+            ok = True
+            for j in range(d):
+                y = pts[j]
+                expect = xt.copy(); expect[j] = ax[j] + Bx[j, j] * z[j]
+                if not np.all(np.abs(y - expect) <= 1e-9 * (1 + np.max(np.abs(expect)))):
+                    self.viol("alpha_mismatch", f"{what}: component {j} evaluated at {y}, expected {expect} from the decoded sweep state", side="sweep")
+                    ok = False; break
+                nxt = pts[j + 1] if j < d - 1 else o.x_next
+                acc_j = bool(nxt[j] == y[j]) and not bool(y[j] == xt[j])
+                cur = self.cur_kind(xt)
+                ybad = ref.in_bad(y) or not np.isfinite(self.env.ref_cached(self.name, y))
+                if ybad:
+                    ctx.count("outside_start_bad_proposals_checked")
+                    ctx.count("nan_inf_never_accepted_checked")
+                    if cur != "finite":
+                        n_bad_from_bad += 1
+                    if acc_j:
+                        self.viol("nan_inf_accepted", f"{what}: component {j}: the move {xt} -> {y} (log-density {self.env.ref_cached(self.name, y)}) "
+                                  f"was accepted from a state of log-density {cur} with u={us[j]}", side="reject", cur=cur)
+                        ok = False; break
+                else:
+                    n_in += 1
+                    ctx.count("outside_start_inward_proposals_checked")
+                    if acc_j:
+                        ctx.count("outside_start_inward_moves_accepted")
+                if acc_j:
+                    xt = y.copy()
+            if not ok:
+                continue
+            if not _same_bits(o.x_next, xt) and not np.all(np.abs(o.x_next - xt) <= 1e-12 * (1 + np.abs(xt))):
+                self.viol("alpha_mismatch", f"{what}: final state {o.x_next} differs from the decoded sweep {xt}", side="sweep")
+                continue
+            ctx.count("accept_cache_checked")
+            post = np.asarray(o.cache_post["current_target_logd"], float).ravel()[:1]
+            fresh = np.asarray(D.lib_eval(o.sampler, o.x_next)["logd"], float).ravel()[:1]
+            if not _close(post, fresh, 1e-12, 1e-13):
+                self.viol("stale_cache_after_accept", f"{what}: carried logd {post} differs from a fresh evaluation {fresh} at {o.x_next}", key="current_target_logd")
+            acc_obs = (np.asarray(o.acc).ravel() > 0.5)
+            moved_any = not _same_bits(o.x_next, o.x_prev)
+            if acc_obs.size == d and bool(acc_obs.any()) != moved_any:
+                self.viol("acc_flag_inconsistent", f"{what}: returned acc={o.acc} but state moved={moved_any}")
+        if n_bad_from_bad:
+            ctx.nontrivial("out:" + kind0) if n_in else ctx.nontrivial()
+
+
 # =========================================================================== chain cases (offline checker)
 
 def run_chain(case, ctx):
@@ -1502,6 +1733,8 @@ def run_case(case, ctx):
     np.seterr(all="ignore")
     if case["kind"] == "thr":
         Thr(case, ctx).run()
+    elif case["kind"] == "out":
+        Out(case, ctx).run()
     elif case["kind"] == "chain":
         run_chain(case, ctx)
     else:
